@@ -121,6 +121,24 @@ def encFullStatusDescriptor (d : Vals × TidKind × Vals) : List Nat := fullStat
 def encReadFullStatus (gen : Nat) (ds : List (Vals × TidKind × Vals)) : List Nat :=
   toBytes gen 4 ++ toBytes (48 * ds.length) 4 ++ (ds.map encFullStatusDescriptor).flatten
 
+/-- a TransportID inside a full status descriptor: one of the fixed-size formats, or the iSCSI name format (00b) -/
+inductive Tid
+  | fixed (K : TidKind) (tv : Vals)
+  | iscsi (name : List Nat) (pad : Nat)
+
+def Tid.bytes : Tid → List Nat
+  | .fixed K tv => K.blk.enc tv
+  | .iscsi name pad => encTidIscsiName name pad
+
+/-- full status descriptor with any of those TransportIDs -/
+def encFullStatusDescriptorAny (d : Vals × Tid) : List Nat := fullStatusDescriptor.enc d.1 ++ d.2.bytes
+
+def fsdBodyLen (ds : List (Vals × Tid)) : Nat := ds.foldr (fun d acc => 24 + d.2.bytes.length + acc) 0
+
+/-- PRGENERATION, ADDITIONAL LENGTH (n−7), full status descriptors of varying size -/
+def encReadFullStatusAny (gen : Nat) (ds : List (Vals × Tid)) : List Nat :=
+  toBytes gen 4 ++ toBytes (fsdBodyLen ds) 4 ++ (ds.map encFullStatusDescriptorAny).flatten
+
 end Std
 
 namespace Std
